@@ -531,6 +531,84 @@ def k9(rep):
         raise AnalysisBroken("scanNumber: the loops that consume radix digits (condition mentioning isupper) were not found")
 
 
+def _listop(n):
+    """'Memq', 'Cons', ... for calls through the generic list operation tables (listMemq(T)(...))."""
+    if n["k"] != "CallExpr" or n.get("callee"):
+        return None
+    c = strip(n["c"][0])
+    return c["n"] if c is not None and c["k"] == "MemberExpr" else None
+
+
+def k10(rep):
+    """Macro expansion terminates on circular definitions: macId keeps the stack of definitions being expanded (macActive), tests
+    the definition for membership before expanding it and pushes that same definition.  The test only works if what is pushed is
+    the object that is tested (the shared definition, not a copy) and if the expansion happens on the not-circular side only."""
+    f = common.extract("macex.c", trees=["macId"], cfg=["macId"])
+    fn = f.func("macId")
+    cfg = common.CFG(fn)
+    where = "macex.c:%d (macId)" % fn["l"]
+
+    def arg_name(n, i):
+        a = strip(n["c"][i]) if len(n["c"]) > i else None
+        return a["n"] if a is not None and a["k"] == "DeclRefExpr" else None
+    memq = cfg.events(lambda n: _listop(n) == "Memq" and arg_name(n, 1) == "macActive")
+    cons = cfg.events(lambda n: _listop(n) == "Cons" and arg_name(n, 2) == "macActive")
+    if len(memq) != 1 or len(cons) != 1:
+        raise AnalysisBroken("macId: expected one listMemq(macActive, d) and one listCons(d, macActive) (found %d, %d)" % (len(memq), len(cons)))
+    mb, mj, mn = memq[0]
+    cb, cj, cn = cons[0]
+    tested, pushed = arg_name(mn, 2), arg_name(cn, 1)
+    if tested is None or pushed is None:
+        raise AnalysisBroken("macId: the tested / pushed definition is not a plain variable")
+    if tested != pushed:
+        rep.violation("K10", "macro-cycle:same-object", where, "the cycle test looks for '%s' in macActive but '%s' is pushed" % (tested, pushed))
+    else:
+        def assigns(n):
+            return n["k"] == "BinaryOperator" and n["op"] == "=" and (strip(n["c"][0]) or {}).get("k") == "DeclRefExpr" \
+                and strip(n["c"][0])["n"] == tested
+        between = None
+        for ab_, aj, an in cfg.events(assigns):
+            if cfg.path_avoiding(mb, lambda n, an=an: n is an, lambda n: False, src_idx=mj) is not None and \
+                    cfg.path_avoiding(ab_, lambda n: n is cn, lambda n: False, src_idx=aj) is not None:
+                between = an
+        if between is None:
+            rep.ok("K10", "macro-cycle:same-object")
+        else:
+            rep.violation("K10", "macro-cycle:same-object", "macex.c:%d (macId)" % between["l"],
+                          "'%s' is reassigned (%s) between the membership test and the push onto macActive: the stack then holds "
+                          "copies that the test, which looks for the shared definition, never finds; a circular macro expands until "
+                          "the C stack overflows instead of being reported" % (tested, render(between)[:60]))
+    # the recursive expansion is on the not-circular side
+    flag = None
+    for d in walk(fn["body"]):
+        if d["k"] == "DeclStmt":
+            for v in d.get("decls", []):
+                if v.get("init") is not None and any(y is mn or y.get("id") == mn.get("id") for y in walk(v["init"])):
+                    flag = v["n"]
+    if flag is None:
+        raise AnalysisBroken("macId: the result of the membership test is not kept in a local")
+    branch = [bid for bid in cfg.blocks if cfg.cond_edges(bid) and (strip(cfg.cond_edges(bid)[0]) or {}).get("n") == flag]
+    if len(branch) != 1:
+        raise AnalysisBroken("macId: expected one branch on '%s'" % flag)
+    _, tsucc, fsucc = cfg.cond_edges(branch[0])
+    rec = lambda n: n["k"] == "CallExpr" and n.get("callee") == "macEx"
+    if not cfg.events(rec):
+        raise AnalysisBroken("macId: no recursive macEx call")
+    if cfg.path_avoiding(tsucc, rec, lambda n: False) is None and \
+            cfg.path_avoiding(cfg.entry, rec, lambda n: (strip(n) or {}).get("n") == flag and n["k"] != "DeclStmt") is None:
+        rep.ok("K10", "macro-cycle:expansion-guarded")
+    else:
+        rep.violation("K10", "macro-cycle:expansion-guarded", where,
+                      "macEx is reached although the definition is already being expanded (or without looking at the test)")
+    # what is pushed is popped
+    pop = lambda n: _listop(n) == "FreeCons" and arg_name(n, 1) == "macActive"
+    if cfg.path_avoiding(cb, None, pop, src_idx=cj) is None:
+        rep.ok("K10", "macro-cycle:popped")
+    else:
+        rep.violation("K10", "macro-cycle:popped", where, "a path leaves macId with the definition still on macActive: a later, "
+                      "unrelated use of the macro is reported as circular")
+
+
 K6_UNITS = ["include.c", "scan.c", "token.c", "syscmd.c", "linear.c", "parseby.c", "abnorm.c", "macex.c", "abcheck.c"]
 
 
@@ -694,6 +772,7 @@ def run(tier, only=None):
 
     k5(rep)
     k9(rep)
+    k10(rep)
     # ---- K8 ---------------------------------------------------------------
     n8 = 0
     for u in sorted(dig):
